@@ -486,6 +486,34 @@ pub fn fresh_kpk(k: &dyn RefKe, n: u64) -> Vec<u8> {
     let l = seed.len().min(32);
     seed[k.nsk() - l..].copy_from_slice(&h[..l]);
     if k.name() == "Curve25519" {
+        // RFC 7748: every 32-byte string that is not a small-order point is a usable public key --
+        // points of the curve, points of its quadratic twist, and small u-coordinates alike
+        // (n = counter + (run seed << 16): the sub-class rotates with both)
+        match ((n & 0xffff) + (n >> 16)) % 4 {
+            1 | 2 => {
+                // a point of the twist (no Edwards form)
+                let mut c = 0u8;
+                loop {
+                    let h = Sha512::digest([b"fresh twist".as_slice(), &n.to_be_bytes(), &[c]].concat());
+                    let mut a = [0u8; 32];
+                    a.copy_from_slice(&h[..32]);
+                    a[31] &= 0x3f;
+                    if MontgomeryPoint(a).to_edwards(0).is_none() && k.pk_valid(&a) {
+                        return a.to_vec();
+                    }
+                    c = c.wrapping_add(1);
+                }
+            }
+            3 => {
+                // a small u-coordinate (u >= 2; the small-order points 0 and 1 are excluded by the check)
+                let mut a = [0u8; 32];
+                a[..8].copy_from_slice(&(2 + n / 4).to_le_bytes());
+                if k.pk_valid(&a) {
+                    return a.to_vec();
+                }
+            }
+            _ => {}
+        }
         let sk = X25519Ke.derive("", HashKind::Sha512, &seed);
         return k.public(&sk);
     }
